@@ -5,9 +5,9 @@ import NixModel.Lemmas.C04Reach
 
 * every lookup (`contGet`) returns one of the links of the container group, so "no link targets a
   deleted entity" covers every access path;
-* `contDel` on an owning container is `deleteAll` of the entity's id (plain, features) or of the
-  breadth-first collected ids of the section / source subtree;
-* `subtreeIds` is complete whenever the fuel is not exhausted, and the fuel is not exhausted when
+* `contDel` on an owning container is `deleteObjs` of the entity (plain, features) or of the
+  breadth-first collected objects of the section / source subtree;
+* `subtreeKeys` is complete whenever the fuel is not exhausted, and the fuel is not exhausted when
   the subtree is a finite forest (`ForestSize`) of at most `|nodes|² + 1` nodes;
 * `contDel` on a link container removes one link (plus the emptied container group).
 -/
@@ -133,58 +133,39 @@ def delTarget (g : Graph) (c : Cont) (key : Key) : Except Err Nat :=
   | .ent k => .ok k
   | k => (contGet g c k).map (·.2)
 
-/-- the ids handed to `delete_all` by the owning containers -/
-def delIds (g : Graph) (c : Cont) (k : Nat) : List String :=
+/-- the objects handed to `delete_all` by the owning containers -/
+def delKeys (g : Graph) (c : Cont) (k : Nat) : List Nat :=
   match c.info.flavour with
-  | .sections => subtreeIds g "sections" k
-  | .sources => subtreeIds g "sources" k ++ (match g.entityId k with | some i => [i] | none => [])
-  | _ => match g.entityId k with | some i => [i] | none => []
+  | .sections => subtreeKeys g "sections" k
+  | .sources => subtreeKeys g "sources" k ++ [k]
+  | _ => [k]
 
 def isOwning (f : CFlavour) : Bool :=
   match f with
   | .plain | .features | .sections | .sources => true
   | .link | .sourceLink => false
 
-theorem deleteAll_nil (g : Graph) : g.deleteAll [] = g := by
-  rw [deleteAll_eq]
-  have : ∀ l : String × Nat, keepLink g [] l = true := by
-    intro l; unfold keepLink doomed; cases g.entityId l.2 <;> simp
-  have hf : ∀ ls : List (String × Nat), ls.filter (keepLink g []) = ls := by
-    intro ls; exact List.filter_eq_self.mpr (fun l _ => this l)
-  simp only [hf]
-  cases g with
-  | mk nodes nk ni =>
-    simp only [Graph.mk.injEq, and_true]
-    exact List.map_id' _
-
 theorem contDel_tail (g : Graph) (c : Cont) (k : Nat) :
     (if kindOf g k != c.info.item then (.error .typeError : Except Err Graph)
      else
       match c.info.flavour with
-      | .plain | .features =>
-        match g.entityId k with
-        | some i => .ok (g.deleteAll [i])
-        | none => .ok g
-      | .sections => .ok (g.deleteAll (subtreeIds g "sections" k))
-      | .sources =>
-        let ids := subtreeIds g "sources" k
-        .ok (g.deleteAll (ids ++ (match g.entityId k with | some i => [i] | none => [])))
+      | .plain | .features => .ok (g.deleteObjs [k])
+      | .sections => .ok (g.deleteObjs (subtreeKeys g "sections" k))
+      | .sources => .ok (g.deleteObjs (subtreeKeys g "sources" k ++ [k]))
       | .link | .sourceLink =>
         match c.node, g.entityId k with
         | some cn, some i => h5Delete g cn c.owner.key c.cname (c.owner.depth + 1) i true
         | _, _ => .error .keyError) =
     (if kindOf g k != c.info.item then .error .typeError
-     else if isOwning c.info.flavour then .ok (g.deleteAll (delIds g c k))
+     else if isOwning c.info.flavour then .ok (g.deleteObjs (delKeys g c k))
      else
       match c.node, g.entityId k with
       | some cn, some i => h5Delete g cn c.owner.key c.cname (c.owner.depth + 1) i true
       | _, _ => .error .keyError) := by
   split
   · rfl
-  · unfold delIds
+  · unfold delKeys
     cases hfl : c.info.flavour <;> simp only [isOwning, Bool.false_eq_true, ↓reduceIte]
-    · cases g.entityId k <;> simp [deleteAll_nil]
-    · cases g.entityId k <;> simp [deleteAll_nil]
 
 theorem contDel_eq (g : Graph) (c : Cont) (key : Key) :
     contDel g c key =
@@ -192,7 +173,7 @@ theorem contDel_eq (g : Graph) (c : Cont) (key : Key) :
       | .error e => .error e
       | .ok k =>
         if kindOf g k != c.info.item then .error .typeError
-        else if isOwning c.info.flavour then .ok (g.deleteAll (delIds g c k))
+        else if isOwning c.info.flavour then .ok (g.deleteObjs (delKeys g c k))
         else
           match c.node, g.entityId k with
           | some cn, some i => h5Delete g cn c.owner.key c.cname (c.owner.depth + 1) i true
